@@ -55,6 +55,19 @@ def main(ctx, args):
             if len(samples) < 3 and n > 3:
                 samples.append({"line": ["U+%04X" % x for x in c["line"]], "td": c["td"], "base_direction": c["ctx"], "visual_index": c["vis"]})
     # shaping: every letter x neighbours x interposed diacritics
+    # the order as the screen gets it (ren_position -> ren_position_reorder), under every option combination: Latin runs of pure-ASCII
+    # lines in right-to-left contexts, and the nested-mark lines; the columns of single-width characters are their visual indices
+    from layoutlib import LATIN_LINES, MARK_LINES
+    pcases = mark_tables(ctx, 30, LATIN_LINES, "latin") + mark_tables(ctx, 30)
+    st["screen_order_cases"] = 0
+    for c, (got, cr) in zip(pcases, run_lines(ctx, pcases)):
+        st["screen_order_cases"] += 1
+        rep = {"line": c["line"], "options": {"order": c["order"], "td": c["td"], "lim": c["lim"]}}
+        if cr is not None or got is None:
+            ctx.violation("layout functions crashed on %s %s" % (c["line"], rep["options"]), dict(rep, crash=cr), {"kind": "crash"})
+        elif got["pos"] != c["pos"]:
+            ctx.violation("columns (visual order on the screen) of %r under %s: expected %s, got %s" % ("".join(map(chr, c["line"])), rep["options"], c["pos"], got["pos"]),
+                          dict(rep, expected=c["pos"], got=got["pos"]), {"kind": "screen-order"})
     env, _ = lib_env(ctx)
     (job, path), = gen_tables(ctx, [dict(MODE="shape", **env)], module="Gen_Layout", timeout=1200)
     scases = [json.loads(ln) for ln in open(path)]
